@@ -430,16 +430,31 @@ pub struct QCase {
     pub facts: FactsG,
     pub goal: Atom,
     pub cfg: Cfg,
+    /// another spelling of the goal's (integer) literal in the query text, e.g. `0.5e1` for 5
+    pub goal_spelling: Option<String>,
+}
+
+/// `0.5e1` for 5, `-0.2e1` for -2: the same number with a mantissa that differs from it
+pub fn exponent_spelling(i: i64) -> String {
+    format!("{}e1", i as f64 / 10.0)
 }
 
 impl QCase {
+    /// the query text as asked
+    pub fn goal_text(&self) -> String {
+        match &self.goal_spelling {
+            Some(sp) => format!("{} {} {}", self.goal.field, self.goal.op.text(), sp),
+            None => self.goal.text(),
+        }
+    }
     pub fn to_json(&self) -> Json {
         json!({
             "rules": kb_to_json(&self.kb),
             "grl": self.kb.grl(),
             "facts": facts_to_json(&self.facts),
             "goal": atom_to_json(&self.goal),
-            "goal_text": self.goal.text(),
+            "goal_text": self.goal_text(),
+            "goal_literal_spelling": self.goal_spelling,
             "config": cfg_to_json(&self.cfg),
         })
     }
@@ -449,6 +464,7 @@ impl QCase {
             facts: facts_from_json(j.get("facts")?)?,
             goal: atom_from_json(j.get("goal")?)?,
             cfg: cfg_from_json(j.get("config")?)?,
+            goal_spelling: j.get("goal_literal_spelling").and_then(|v| v.as_str()).map(|s| s.to_string()),
         })
     }
 }
@@ -926,7 +942,16 @@ pub fn run_query_on(engine: &mut BackwardEngine, facts: &mut Facts, goal_text: &
     QObs { outcome, before, after, undo_before, undo_after, goals_explored }
 }
 
+/// Fresh KnowledgeBase + fresh engine + fresh facts, one query given as text.
+pub fn run_query_text(rules: &[Rule], facts: &FactsG, text: &str, cfg: &Cfg) -> Result<QObs, String> {
+    let kb = make_kb(rules)?;
+    let mut engine = BackwardEngine::with_config(kb, cfg.engine());
+    let mut f = make_facts(facts);
+    Ok(run_query_on(&mut engine, &mut f, text))
+}
+
 /// Fresh KnowledgeBase + fresh engine + fresh facts, one query.
+#[allow(dead_code)]
 pub fn run_query(rules: &[Rule], facts: &FactsG, goal: &Atom, cfg: &Cfg) -> Result<QObs, String> {
     let kb = make_kb(rules)?;
     let mut engine = BackwardEngine::with_config(kb, cfg.engine());
